@@ -101,10 +101,14 @@ class Prov:
             args = [self.operand(a, depth + 1, seen) for a in t["args"]]
             # smart-pointer / guard derefs and trivial conversions are transparent
             tail = nm.split("::")[-1]
-            if tail in ("deref", "deref_mut", "as_ref", "as_mut", "borrow", "borrow_mut", "clone", "into", "from", "unwrap", "expect", "copied", "cloned") and len(args) >= 1:
-                if tail in ("unwrap", "expect", "clone", "copied", "cloned", "into", "from"):
-                    return "%s(%s)" % (tail, args[0]) if tail in ("unwrap", "expect") else args[0]
+            if tail in ("deref", "deref_mut", "as_ref", "as_mut", "borrow", "borrow_mut", "clone", "into", "from", "copied", "cloned", "branch", "from_residual", "from_output") and len(args) >= 1:
                 return args[0]
+            if tail in ("unwrap", "expect") and len(args) >= 1:
+                return "ok(%s)" % args[0]
+            if tail in ("unwrap_err", "expect_err") and len(args) >= 1:
+                return "err(%s)" % args[0]
+            if tail == "len" and len(args) == 1 and ("Vec" in nm or "[T]" in nm or "slice" in nm or "String" in nm or "str" in nm):
+                return "len(%s)" % args[0]
             return "%s(%s)" % (nm, ",".join(args))
         st = x
         rv = st["rv"]
@@ -119,6 +123,8 @@ class Prov:
             op = rv["op"].replace("WithOverflow", "")
             return "%s(%s,%s)" % (op, self.operand(rv["a"], depth + 1, seen), self.operand(rv["b"], depth + 1, seen))
         if k == "unop":
+            if rv["op"] == "PtrMetadata":
+                return "len(%s)" % self.operand(rv["a"], depth + 1, seen)
             return "%s(%s)" % (rv["op"], self.operand(rv["a"], depth + 1, seen))
         if k == "discriminant":
             return "discr(%s)" % self.place(rv["place"], depth + 1, seen)
@@ -134,8 +140,15 @@ class Prov:
 
     def place(self, p, depth=0, seen=()):
         s = self.local(p["local"], depth, seen)
+        pending_variant = None
         for e in p["proj"]:
             k = e["p"]
+            if pending_variant is not None and k == "field" and e["name"] == "0" and pending_variant in ("Some", "Ok", "Continue", "Err", "Break"):
+                base = s[:-(len(pending_variant) + 4)]
+                s = ("ok(%s)" if pending_variant in ("Some", "Ok", "Continue") else "err(%s)") % base
+                pending_variant = None
+                continue
+            pending_variant = None
             if k == "deref":
                 continue
             if k == "field":
@@ -157,6 +170,7 @@ class Prov:
                 s = "%s[%d]" % (s, e["offset"])
             elif k == "downcast":
                 s = "%s as %s" % (s, e["variant"])
+                pending_variant = e["variant"]
             elif k == "subslice":
                 s = "%s[%d..]" % (s, e["from"])
         return s
@@ -178,6 +192,9 @@ class Prov:
                 return "str:%r" % o["str"]
             if "fndef" in o:
                 return "fn:%s" % short_fn(o["fndef"])
+            if o.get("promoted") and "promoted_val" in o:
+                val = o["promoted_val"].replace("const ", "")
+                return "const:%s" % "::".join(val.split("::")[-2:]) if "::" in val else "const:%s" % val
             if o.get("promoted"):
                 rep = o.get("repr", "")
                 try:
@@ -201,6 +218,7 @@ class Guards:
         self.prov = Prov(fn)
         self._dom = None
         self._promoted = ctx
+        self._adts = ctx.fx.adts
 
     def _edges(self):
         out = []
@@ -229,29 +247,137 @@ class Guards:
         out = []
         for e, (dom, bb, val, vals) in self._dom.items():
             if node in dom and node != e:
-                a = self.describe(bb, val, vals)
-                if a:
-                    out.append(a)
+                out.extend(self.describe_all(bb, val, vals))
         return sorted(set(out))
 
     def describe(self, bb, val, vals):
-        """Atom string for taking the edge labelled `val` out of block bb."""
+        """Canonical atom for taking the edge labelled `val` out of block bb (first of describe_all)."""
+        xs = self.describe_all(bb, val, vals)
+        return xs[0] if xs else None
+
+    # -- canonical atoms --------------------------------------------------
+    def _variant_names(self, bb):
+        """value -> variant name for the discriminant switched on in block bb, or None."""
+        blk = self.fn.blocks[bb]
+        t = blk["term"]
+        dl = t["discr"]["place"]["local"] if t["discr"]["k"] in ("copy", "move") else None
+        pty = None
+        for st in blk["stmts"]:
+            if st["s"] == "assign" and st["place"]["local"] == dl and st["rv"]["r"] == "discriminant":
+                pty = st["rv"]["place"].get("ty", "")
+        if pty is None:
+            return None
+        pty = pty.lstrip("&").strip()
+        if pty.startswith("std::option::Option<"):
+            return {"0": "None", "1": "Some"}
+        if pty.startswith("std::result::Result<"):
+            return {"0": "Ok", "1": "Err"}
+        if pty.startswith("std::ops::ControlFlow<"):
+            if pty.startswith("std::ops::ControlFlow<std::option::Option<"):
+                return {"0": "Some", "1": "None"}
+            return {"0": "Ok", "1": "Err"}
+        if pty.startswith("std::cmp::Ordering"):
+            return {"255": "Less", "0": "Equal", "1": "Greater"}
+        adts = getattr(self, "_adts", None)
+        if adts:
+            a = adts.get(pty.split("<")[0])
+            if a and a["is_enum"]:
+                short = a["path"].split("::")[-1]
+                return {str(i): "%s::%s" % (short, v["name"]) for i, v in enumerate(a["variants"])}
+        return None
+
+    def describe_all(self, bb, val, vals):
         t = self.fn.blocks[bb]["term"]
         cond = self.prov.operand(t["discr"])
         others = [v for v in vals if v != val]
         if cond.startswith("discr("):
             inner = cond[6:-1]
-            if val == "otherwise":
-                return "%s !in {%s}" % (inner, ",".join(others))
-            return "%s is #%s" % (inner, val)
+            names = self._variant_names(bb)
+            if names is None:
+                if val == "otherwise":
+                    return ["%s !in {%s}" % (inner, ",".join(others))]
+                return ["%s is #%s" % (inner, val)]
+            if val != "otherwise":
+                return ["%s is %s" % (inner, names.get(val, "#" + val))]
+            out = ["%s is not %s" % (inner, names.get(o, "#" + o)) for o in others]
+            rest = [n for k, n in names.items() if k not in others]
+            if len(rest) == 1:
+                out.insert(0, "%s is %s" % (inner, rest[0]))
+            return out
         # boolean conditions
         if val == "0":
-            return "!(%s)" % cond
-        if val == "otherwise" and others == ["0"]:
-            return "(%s)" % cond
-        if val == "otherwise":
-            return "%s !in {%s}" % (cond, ",".join(others))
-        return "%s == %s" % (cond, val)
+            pol = False
+        elif val == "otherwise" and others == ["0"]:
+            pol = True
+        elif val == "1" and "0" in others:
+            pol = True
+        else:
+            if val == "otherwise":
+                return ["%s !in {%s}" % (cond, ",".join(others))]
+            return ["%s == %s" % (cond, val)]
+        return canon_bool(cond, pol)
+
+
+NEGREL = {"Lt": "Ge", "Ge": "Lt", "Gt": "Le", "Le": "Gt", "Eq": "Ne", "Ne": "Eq"}
+MIRROR = {"Lt": "Gt", "Gt": "Lt", "Le": "Ge", "Ge": "Le", "Eq": "Eq", "Ne": "Ne"}
+
+
+def canon_bool(cond, pol):
+    """Canonical atom(s) for boolean provenance `cond` being true (pol) or false."""
+    import re as _re
+    while cond.startswith("Not(") and cond.endswith(")"):
+        cond = cond[4:-1]
+        pol = not pol
+    m = _re.match(r"^(Lt|Le|Gt|Ge|Eq|Ne)\((.*)\)$", cond)
+    if m:
+        parts = _split_top(m.group(2))
+        if len(parts) == 2:
+            op = m.group(1) if pol else NEGREL[m.group(1)]
+            a, b = parts
+            ec = _enum_const(b) or _enum_const(a)
+            if op in ("Eq", "Ne") and ec:
+                other = a if _enum_const(b) else b
+                return ["%s is %s%s" % (other, "" if op == "Eq" else "not ", ec)]
+            out = ["(%s(%s,%s))" % (op, a, b)]
+            if MIRROR[op] != op:
+                out.append("(%s(%s,%s))" % (MIRROR[op], b, a))
+            elif a != b:
+                out.append("(%s(%s,%s))" % (op, b, a))
+            return out
+    m = _re.match(r"^(?:[\w<>&' ,\[\]]*::)?(eq|ne)\((.*)\)$", cond)
+    if m and ("PartialEq" in cond.split("(")[0] or cond.startswith("eq(") or cond.startswith("ne(") or "::eq(" in cond.split(",")[0] or "::ne(" in cond.split(",")[0]):
+        parts = _split_top(m.group(2))
+        if len(parts) == 2:
+            is_eq = (m.group(1) == "eq") == pol
+            a, b = parts
+            ec = _enum_const(b) or _enum_const(a)
+            if ec:
+                other = a if _enum_const(b) else b
+                return ["%s is %s%s" % (other, "" if is_eq else "not ", ec)]
+            op = "Eq" if is_eq else "Ne"
+            return ["(%s(%s,%s))" % (op, a, b), "(%s(%s,%s))" % (op, b, a)]
+    m = _re.match(r"^Option::(is_none|is_some)\((.*)\)$", cond)
+    if m:
+        some = (m.group(1) == "is_some") == pol
+        return ["%s is %s" % (m.group(2), "Some" if some else "None")]
+    m = _re.match(r"^Result::(is_ok|is_err)\((.*)\)$", cond)
+    if m:
+        ok = (m.group(1) == "is_ok") == pol
+        return ["%s is %s" % (m.group(2), "Ok" if ok else "Err")]
+    m = _re.match(r"^(?:Vec|<impl \[T\]>|String|<impl str>|VecDeque)::is_empty\((.*)\)$", cond)
+    if m:
+        op = "Eq" if pol else "Ne"
+        return ["(%s(len(%s),const:0))" % (op, m.group(1)), "(%s(const:0,len(%s)))" % (op, m.group(1))]
+    return ["(%s)" % cond if pol else "!(%s)" % cond]
+
+
+def _enum_const(x):
+    import re as _re
+    m = _re.match(r"^const:([A-Z]\w*::[A-Z]\w*)$", x)
+    if m and not m.group(1).startswith("consts::"):
+        return m.group(1)
+    m = _re.match(r"^(?:const:)?(?:<&\w+>::)?(?:Option::)?Some\((.*)\)$", x)
+    return None
 
 
 def guards(ctx, fn):
